@@ -107,6 +107,12 @@ def run (cmd : String) (a : Args) : Except String String := do
     let s ← Drv.Msg.svcByName (← getStr a "svc")
     let req : Request := { service := some s, subfunction := ← getOptNat a "sf", spr := false, data := ← getOptHex a "data" }
     let arr ← Drv.Send.parseArrivals (← getStr a "arr")
+    match get a "sw" with
+    | some sw =>
+      -- … as delivered by the method's decorator under the given exception_on_* switches
+      let sw ← Drv.Client.parseSw sw
+      pure s!"log={Drv.Send.showLog (sendRequest cfg st req none arr).log} {Drv.Client.showOuter (deliver sw (callWithI cfg st req post arr))}"
+    | none =>
     pure s!"log={Drv.Send.showLog (sendRequest cfg st req none arr).log} out={showCallOut (callWith cfg st req post arr)}"
   else
   let d ← getHex a "d"
